@@ -677,8 +677,16 @@ def judge_state(root, spec, entries, models, committed, inflight, post, fix=None
     if not post:
         return {"viol": viol, "hits": dict(hits), "info": info}
 
-    # -- 6. (C) the other models can still be stored and are then retrievable
-    for j in range(nm_models):
+    # -- 6. (C) the other models can still be stored and are then retrievable.  The order of these stores is part of
+    # the history (a store with another dataset of the same layout before the one sharing the interrupted dataset, or
+    # after it): it is drawn from the workload itself, so that a replay makes the same choice
+    import hashlib as _hl
+    import random as _random
+
+    order = list(range(nm_models))
+    _random.Random(_hl.sha1(json.dumps(spec.get("ops", []), sort_keys=True, default=str).encode()).hexdigest()).shuffle(order)
+    hits["C:post_store_order:" + ("ascending" if order == sorted(order) else "other")] += 1
+    for j in order:
         if keys[j] in fl_keys:
             # (D) a retry of the interrupted store may be refused (a pending transaction is a documented refusal), but
             # when it returns the entry must be complete: a torn entry must never become visible through a retry
